@@ -30,18 +30,21 @@ MayBind(fam) == fam \in {"isal", "legacy", "int"}
 (* when the behaviour file asks for it; the spec computes the secrets.     *)
 (***************************************************************************)
 Trivial(s) == \A i \in 1..Len(s) : s[i] = s[1]
+\* secrets are pairs << kind, 16 bytes >>
 KeySecrets(key) ==
-  LET rk == RoundKeys(key)  dk == DecRoundKeys(key)
-  IN {rk[i] : i \in 1..Len(rk)} \cup {dk[i] : i \in 1..Len(dk)}
-     \cup {SubSeq(key, 16 * (i - 1) + 1, 16 * i) : i \in 1..(Len(key) \div 16)}
-Chunks16(hex) == {SubSeq(FromHex(hex), 16 * (i - 1) + 1, 16 * i) : i \in 1..(Len(FromHex(hex)) \div 16)}
+  LET rk == FastRoundKeys(key)  dk == FastDecRoundKeys(key)
+  IN {<< "round-key", rk[i] >> : i \in 1..Len(rk)} \cup {<< "dec-round-key", dk[i] >> : i \in 1..Len(dk)}
+     \cup {<< "raw-key", SubSeq(key, 16 * (i - 1) + 1, 16 * i) >> : i \in 1..(Len(key) \div 16)}
+Chunks16(hex) == LET b == FromHex(hex) IN {<< "key-data", SubSeq(b, 16 * (i - 1) + 1, 16 * i) >> : i \in 1..(Len(b) \div 16)}
+Where(e, s) == IF HexHas(e.zmm, ToHex(s)) THEN "reg" ELSE "stack"
 Leaked(e, secrets) ==
-  {s \in secrets : ~Trivial(s) /\ (HexHas(e.zmm, ToHex(s)) \/ HexHas(e.dstk, ToHex(s)))}
-LeakChecks(e, secrets, what) ==
+  {s \in secrets : ~Trivial(s[2]) /\ (HexHas(e.zmm, ToHex(s[2])) \/ HexHas(e.dstk, ToHex(s[2])))}
+LeakChecks(e, fam, secrets, what) ==
   IF "zmm" \in DOMAIN e
   THEN LET lk == Leaked(e, secrets)
-       IN Chk(lk = {}, "C14", what, l,
-              << e.e, e.fam, {<< ToHex(s), IF HexHas(e.zmm, ToHex(s)) THEN "reg" ELSE "stack" >> : s \in lk} >>)
+           kinds == {<< s[1], Where(e, s[2]) >> : s \in lk}
+       \* one record per (kind of secret, register/stack) so that findings can be told apart
+       IN Chk(lk = {}, "C14", what, l, << e.e, fam, kinds >>)
   ELSE << >>
 
 MachineChecks(e, fam) ==
@@ -58,7 +61,15 @@ Step(v) == /\ l' = l + 1
 TInit == l = 1 /\ gst = << >> /\ viol = << >> /\ PubResult(<< >>, 1)
 
 GcmSecrets(e, key) ==
-  KeySecrets(key) \cup {HashKey(key)} \cup (IF "kd" \in DOMAIN e THEN Chunks16(e.kd) ELSE {})
+  KeySecrets(key) \cup {<< "hash-key", HashKey(key) >>} \cup (IF "kd" \in DOMAIN e THEN Chunks16(e.kd) ELSE {})
+
+\* ---- GCM key precompute (C14 only: the functional content of key_data is checked through every cipher call)
+TGcmPre ==
+  /\ IsEv("GcmPre") /\ UNCHANGED gst
+  /\ LET e == Tr[l]  key == Key(e) IN
+     Step(IF e.obs.fault # 0 THEN MachineChecks(e, e.fam)
+          ELSE    LeakChecks(e, e.fam, GcmSecrets(e, key), "gcm-pre-key-material-left")
+               \o MachineChecks(e, e.fam))
 
 \* ---- GCM one-shot (C02)
 TGcm ==
@@ -73,7 +84,7 @@ TGcm ==
              ELSE    Chk(e.out = ToHex(r.out), "C02", "gcm-output", l, info)
                   \o Chk(e.tag = ToHex(r.tag), "C02", "gcm-tag", l, info \o << e.tag, ToHex(r.tag) >>)
                   \o Chk(e.rc = 0 /\ e.prc = 0, "C16", "gcm-rc", l, info \o << e.rc, e.prc >>)
-                  \o LeakChecks(e, GcmSecrets(e, key), "gcm-key-material-left")
+                  \o LeakChecks(e, e.fam, GcmSecrets(e, key), "gcm-key-material-left")
                   \o MachineChecks(e, e.fam))
 
 \* ---- GCM streaming (C07): the state machine
@@ -85,7 +96,7 @@ TGcmInit ==
      IN /\ gst' = [x \in (DOMAIN gst) \cup {e.sid} |-> IF x = e.sid THEN s ELSE gst[x]]
         /\ Step(   Chk(e.obs.fault # 0 \/ e.cx = << 0, 0, e.aad[3] >>, "DRIFT", "gcm-context-fields-after-init", l, << e.fam, e.cx >>)
                 \o Chk(e.rc = 0 /\ e.prc = 0, "C16", "gcm-init-rc", l, << e.fam, e.rc, e.prc >>)
-                \o LeakChecks(e, GcmSecrets(e, Key(e)), "gcm-key-material-left")
+                \o LeakChecks(e, e.fam, GcmSecrets(e, Key(e)), "gcm-key-material-left")
                 \o MachineChecks(e, e.fam))
 
 TGcmUpdate ==
@@ -102,7 +113,7 @@ TGcmUpdate ==
                      \o Chk(e.cx[1] = s.pos + Len(d) /\ e.cx[2] % 16 = (s.pos + Len(d)) % 16 /\ e.cx[3] = Len(s.aad), "DRIFT",
                             "gcm-context-fields", l, info \o << e.cx >>)
                      \o Chk(e.rc = 0, "C16", "gcm-update-rc", l, info \o << e.rc >>)
-                     \o LeakChecks(e, KeySecrets(s.key) \cup {HashKey(s.key)}, "gcm-key-material-left")
+                     \o LeakChecks(e, s.fam, KeySecrets(s.key) \cup {<< "hash-key", HashKey(s.key) >>}, "gcm-key-material-left")
                      \o MachineChecks(e, s.fam))
 
 TGcmFinal ==
@@ -113,7 +124,7 @@ TGcmFinal ==
      IN Step(IF ~s.ok \/ e.obs.fault # 0 THEN MachineChecks(e, s.fam)
              ELSE    Chk(e.tag = ToHex(exp), "C07", "gcm-final-tag", l, info \o << e.tag, ToHex(exp) >>)
                   \o Chk(e.rc = 0, "C16", "gcm-final-rc", l, info \o << e.rc >>)
-                  \o LeakChecks(e, KeySecrets(s.key) \cup {HashKey(s.key)}, "gcm-key-material-left")
+                  \o LeakChecks(e, s.fam, KeySecrets(s.key) \cup {<< "hash-key", HashKey(s.key) >>}, "gcm-key-material-left")
                   \o MachineChecks(e, s.fam))
 
 \* ---- key expansion (C04)
@@ -124,7 +135,7 @@ TKeyExp ==
           ELSE    Chk(e.enc = ToHex(EncSchedule(key)), "C04", "keyexp-enc-schedule", l, info)
                \o Chk(e.dec = ToHex(DecSchedule(key)), "C04", "keyexp-dec-schedule", l, info)
                \o Chk(e.rc = 0, "C16", "keyexp-rc", l, info \o << e.rc >>)
-               \o LeakChecks(e, KeySecrets(key), "keyexp-key-material-left")
+               \o LeakChecks(e, e.fam, KeySecrets(key), "keyexp-key-material-left")
                \o MachineChecks(e, e.fam))
 
 \* ---- CBC (C04)
@@ -136,7 +147,7 @@ TCbc ==
      IN Step(IF e.obs.fault # 0 THEN MachineChecks(e, e.fam)
              ELSE    Chk(e.out = ToHex(exp), "C04", "cbc-output", l, info)
                   \o Chk(e.rc = 0, "C16", "cbc-rc", l, info \o << e.rc >>)
-                  \o LeakChecks(e, KeySecrets(key), "cbc-key-material-left")
+                  \o LeakChecks(e, e.fam, KeySecrets(key), "cbc-key-material-left")
                   \o MachineChecks(e, e.fam))
 
 \* ---- XTS (C03); below 16 bytes neither buffer may be touched
@@ -154,12 +165,12 @@ TXts ==
              ELSE LET exp == IF e.dir = "enc" THEN XtsEnc(k1, k2, tw, Data(e)) ELSE XtsDec(k1, k2, tw, Data(e))
                   IN    Chk(e.out = ToHex(exp), "C03", "xts-output", l, info)
                      \o Chk(e.rc = 0, "C16", "xts-rc", l, info \o << e.rc >>)
-                     \o LeakChecks(e, KeySecrets(k1) \cup KeySecrets(k2) \cup {AesEncBlock(k2, tw)}, "xts-key-material-left")
+                     \o LeakChecks(e, e.fam, KeySecrets(k1) \cup KeySecrets(k2) \cup {<< "encrypted-tweak", AesEncBlock(k2, tw) >>}, "xts-key-material-left")
                      \o MachineChecks(e, e.fam))
 
 TSkip == l <= NEv /\ Tr[l].e = "Mark" /\ UNCHANGED gst /\ Step(<< >>)
 
-TNext == TGcm \/ TGcmInit \/ TGcmUpdate \/ TGcmFinal \/ TKeyExp \/ TCbc \/ TXts \/ TSkip
+TNext == TGcmPre \/ TGcm \/ TGcmInit \/ TGcmUpdate \/ TGcmFinal \/ TKeyExp \/ TCbc \/ TXts \/ TSkip
 TSpec == TInit /\ [][TNext]_tvars
 TraceAccepted == WriteResult /\ TLCGet(2) = NEv + 1
 =============================================================================
